@@ -33,6 +33,8 @@ CONSTANTS Wal,         \* sequence of samples <<series, k>> in WAL order
                        \* shards were started (what a replay can force: deadline short at start, long afterwards)
           EmitMode,
           Record,      \* FALSE: no history variable (liveness checking without VIEW)
+          BatchBug,    \* TRUE: design mutation used to show that PerSeriesOrder is not vacuous: queue.Batch() returns the
+                       \* partial batch even when a published batch is waiting
           Eager        \* TRUE: an idle shard goroutine receives a published batch before anything else happens (what a
                        \* replay can reproduce: the receive cannot be held back by a gate); FALSE: any interleaving
 
@@ -126,7 +128,7 @@ TimerFire(q) ==
 TimerTake(q) ==
   /\ tmr[q] = "fired"
   /\ tmr' = [tmr EXCEPT ![q] = IF Timer = "first" THEN "off" ELSE "armed"]
-  /\ IF chan[q] # <<>>
+  /\ IF chan[q] # <<>> /\ ~BatchBug
      THEN /\ infl' = [infl EXCEPT ![q] = chan[q][1]] /\ chan' = [chan EXCEPT ![q] = Tail(@)] /\ UNCHANGED part
      ELSE IF closed[q] THEN UNCHANGED <<infl, chan, part>>
      ELSE /\ infl' = [infl EXCEPT ![q] = part[q]] /\ part' = [part EXCEPT ![q] = <<>>] /\ UNCHANGED chan
